@@ -978,6 +978,11 @@ func (e *executor) prepareExprDependencies(
 		)
 	}
 	for _, dependency := range dependencies {
+		if len(dependency) < 2 {
+			// The expression refers to the root of the data model ("$") itself. It is not possible to depend on
+			// everything, so this is not a usable reference.
+			return fmt.Errorf("expression %s refers to the whole data model; refer to the input or to a step output instead", expr.String())
+		}
 		dependencyKind := dependency[1]
 		switch dependencyKind {
 		case WorkflowInputKey:
